@@ -106,15 +106,16 @@ class Sem:
 
     def pattern_holds(self, pat, trace, inst):
         t0, lo, hi, close, terminated, env = inst
-        kind, beh, trig, _min_t, max_t = pat[1:]
+        kind, beh, trig, min_t, max_t = pat[1:]
+        # a lower bound (no syntax; API only) is read as the start of the time window: [t + min_t, t + max_t]
         if kind == 'absence':
             for k in range(lo, hi):
-                if trace[k][0] <= t0 + max_t and self.match(beh, trace[k], env) is not None:
+                if t0 + min_t <= trace[k][0] <= t0 + max_t and self.match(beh, trace[k], env) is not None:
                     return False
             return True
         if kind == 'existence':
             for k in range(lo, hi):
-                if trace[k][0] <= t0 + max_t and self.match(beh, trace[k], env) is not None:
+                if t0 + min_t <= trace[k][0] <= t0 + max_t and self.match(beh, trace[k], env) is not None:
                     return True
             return not self._open_obligation_violated(t0 + max_t, close, terminated)
         if kind == 'response':
@@ -127,7 +128,7 @@ class Sem:
                 ta = trace[k][0]
                 found = False
                 for m in range(k + 1, hi):
-                    if trace[m][0] <= ta + max_t and self.match(beh, trace[m], env2) is not None:
+                    if ta + min_t <= trace[m][0] <= ta + max_t and self.match(beh, trace[m], env2) is not None:
                         found = True
                         break
                 if not found and self._open_obligation_violated(ta + max_t, close, terminated):
@@ -142,7 +143,7 @@ class Sem:
                 env2.update(b)
                 ta = trace[k][0]
                 for m in range(k + 1, hi):
-                    if trace[m][0] <= ta + max_t and self.match(beh, trace[m], env2) is not None:
+                    if ta + min_t <= trace[m][0] <= ta + max_t and self.match(beh, trace[m], env2) is not None:
                         return False
             return True
         if kind == 'requirement':
@@ -155,7 +156,7 @@ class Sem:
                 tb = trace[k][0]
                 found = False
                 for m in range(lo, k):
-                    if trace[m][0] >= tb - max_t and self.match(trig, trace[m], env2) is not None:
+                    if tb - max_t <= trace[m][0] <= tb - min_t and self.match(trig, trace[m], env2) is not None:
                         found = True
                         break
                 if not found:
